@@ -139,3 +139,88 @@ pub fn remote_remove(
         ProtocolsChange::Removed(r) => r.cloned().collect::<Vec<_>>(),
     })
 }
+
+/// What one call of the real `Connection::poll` returned.
+#[derive(Debug)]
+pub enum ConnPoll<T> {
+    Pending,
+    Handler(T),
+    AddressChange(Multiaddr),
+    Closed(crate::ConnectionError),
+}
+
+/// The planned shutdown of a connection, as stored by `Connection::poll`.
+#[derive(Debug, Clone, Copy, PartialEq, Eq)]
+pub enum ShutdownView {
+    None,
+    Asap,
+    Later,
+}
+
+/// The four stream-related quantities `Connection::poll` looks at before planning a shutdown.
+#[derive(Debug, Clone, Copy, PartialEq, Eq)]
+pub struct ConnCounts {
+    pub negotiating_in: usize,
+    pub negotiating_out: usize,
+    pub requested_substreams: usize,
+    pub has_active_streams: bool,
+}
+
+/// A real `Connection` (the object a connection task owns) that the harness polls itself.
+pub struct Conn<H: crate::ConnectionHandler>(crate::connection::Connection<H>);
+
+impl<H: crate::ConnectionHandler> Conn<H> {
+    pub fn new(
+        muxer: StreamMuxerBox,
+        handler: H,
+        max_negotiating_inbound_streams: usize,
+        idle_timeout: Duration,
+    ) -> Self {
+        Conn(crate::connection::Connection::new(
+            muxer,
+            handler,
+            None,
+            max_negotiating_inbound_streams,
+            idle_timeout,
+        ))
+    }
+
+    pub fn poll(&mut self, cx: &mut std::task::Context<'_>) -> ConnPoll<H::ToBehaviour> {
+        use std::task::Poll;
+
+        use crate::connection::Event;
+        match std::pin::Pin::new(&mut self.0).poll(cx) {
+            Poll::Pending => ConnPoll::Pending,
+            Poll::Ready(Ok(Event::Handler(e))) => ConnPoll::Handler(e),
+            Poll::Ready(Ok(Event::AddressChange(a))) => ConnPoll::AddressChange(a),
+            Poll::Ready(Err(e)) => ConnPoll::Closed(e),
+        }
+    }
+
+    pub fn on_behaviour_event(&mut self, event: H::FromBehaviour) {
+        self.0.on_behaviour_event(event)
+    }
+
+    pub fn handler_mut(&mut self) -> &mut H {
+        self.0.verif_handler_mut()
+    }
+
+    pub fn shutdown(&self) -> ShutdownView {
+        match self.0.verif_shutdown() {
+            0 => ShutdownView::None,
+            1 => ShutdownView::Asap,
+            _ => ShutdownView::Later,
+        }
+    }
+
+    pub fn counts(&self) -> ConnCounts {
+        let (negotiating_in, negotiating_out, requested_substreams, none_active) =
+            self.0.verif_counts();
+        ConnCounts {
+            negotiating_in,
+            negotiating_out,
+            requested_substreams,
+            has_active_streams: !none_active,
+        }
+    }
+}
